@@ -60,3 +60,8 @@ pub fn all_chars(s: &str) -> bool {
 pub fn norm_attr_ws(s: &str) -> String {
     s.chars().map(|c| if c == '\t' || c == '\n' || c == '\r' { ' ' } else { c }).collect()
 }
+
+/// non-empty and made of name characters only (the start-character rule is C18's business)
+pub fn has_only_name_chars(s: &str) -> bool {
+    !s.is_empty() && s.chars().all(is_name_char)
+}
